@@ -21,7 +21,7 @@ fn stub_packs_epi16(a: __m128i, b: __m128i) -> __m128i {
     unsafe { core::mem::transmute(r) }
 }
 
-//@ h=agg_sse2_kernel props=C07,C17 cfgs=K6 tier=q t=900 | funcs: x86_sse2::sub_aggregation | bound: any 4 u32 counters x all q1<=q2<=q3: == packed reference dibits (unsigned compare via sign-bit flip) | stubs: _mm_packs_epi16 -> Intel pseudo-code (signed saturate i16->i8); _mm_undefined_si128 lanes are masked out by the code
+//@ h=agg_sse2_kernel props=C01,C07,C17 cfgs=K6 tier=q t=900 | funcs: x86_sse2::sub_aggregation | bound: any 4 u32 counters x all q1<=q2<=q3: == packed reference dibits (unsigned compare via sign-bit flip) | stubs: _mm_packs_epi16 -> Intel pseudo-code (signed saturate i16->i8); _mm_undefined_si128 lanes are masked out by the code
 #[kani::proof]
 #[kani::unwind(10)]
 #[kani::stub(core::arch::x86_64::_mm_packs_epi16, stub_packs_epi16)]
@@ -55,9 +55,9 @@ macro_rules! agg_struct {
         }
     };
 }
-//@ h=agg_sse2_48 props=C07,C17 cfgs=K6 tier=q t=900 | funcs: x86_sse2::aggregate_48 | bound: all inputs: byte k == real kernel on buckets 4(11-k).. | stubs: _mm_packs_epi16 pseudo-code
+//@ h=agg_sse2_48 props=C01,C07,C17 cfgs=K6 tier=q t=900 | funcs: x86_sse2::aggregate_48 | bound: all inputs: byte k == real kernel on buckets 4(11-k).. | stubs: _mm_packs_epi16 pseudo-code
 agg_struct!(agg_sse2_48, aggregate_48, 48, 12, 52);
-//@ h=agg_sse2_128 props=C07,C17 cfgs=K6 tier=t t=1800 | funcs: x86_sse2::aggregate_128 | bound: all inputs | stubs: _mm_packs_epi16 pseudo-code
+//@ h=agg_sse2_128 props=C01,C07,C17 cfgs=K6 tier=t t=1800 | funcs: x86_sse2::aggregate_128 | bound: all inputs | stubs: _mm_packs_epi16 pseudo-code
 agg_struct!(agg_sse2_128, aggregate_128, 128, 32, 132);
-//@ h=agg_sse2_256 props=C07,C17 cfgs=K6 tier=t t=2400 | funcs: x86_sse2::aggregate_256 | bound: all inputs | stubs: _mm_packs_epi16 pseudo-code
+//@ h=agg_sse2_256 props=C01,C07,C17 cfgs=K6 tier=t t=2400 | funcs: x86_sse2::aggregate_256 | bound: all inputs | stubs: _mm_packs_epi16 pseudo-code
 agg_struct!(agg_sse2_256, aggregate_256, 256, 64, 260);
